@@ -15,8 +15,12 @@ Case format (old cases — `typed: bool`, `lazy: bool` — still replay):
 Pass 5: cells may be markers ({"__tuple__": [...]}, {"__pydict__": {...}}, {"__pyset__": [...]}, {"__nan__": true}; see
 `cell_py` / `canon` / `strict`); steps `biter s size` (open a to_batches generator: a register), `bnext r k` (pull up to
 k batches from it), `fetch s how` (fetchone / fetchmany / fetchall on a materialised frame, value not compared).
+Pass 6: the form of a sequence argument (`op[3]` of select / filter / take, `op[4]` of collect) may name a slot, `"list#0"` /
+`"multi#0"`: every step of one slot is given the SAME argument object (a program that keeps a selection in a variable); after
+the program every argument object passed is compared with a second one built the same way.
 """
 import itertools
+import json
 import re
 
 from .. import wire
@@ -509,6 +513,44 @@ def arg_form(values, form, what="names"):
     raise InfraError("bad argument form %r" % (form,))
 
 
+def form_slot(form):
+    """('list#3') -> ('list', 3): the argument object of this step is the one held in slot 3 of the program - the SAME
+    object every step of that slot is given (made by the first of them).  No '#': a fresh object of its own."""
+    if isinstance(form, str) and "#" in form:
+        base, k = form.split("#", 1)
+        if not re.fullmatch(r"\d{1,2}", k):
+            raise InfraError("bad argument slot %r" % (form,))
+        return base, int(k)
+    return form, None
+
+
+def arg_of(op):
+    """(what, object form, slot, values) of the sequence argument of a step, None when it has none / a bare one."""
+    k = op[0]
+    if k in ("select", "filter", "take"):
+        base, slot = form_slot(op[3] if len(op) > 3 else None)
+        if base == "bare":
+            return None
+        return {"select": "names", "filter": "mask", "take": "indexes"}[k], base or "list", slot, op[2]
+    if k == "collect":
+        base, slot = form_slot(op[4])
+        if base != "multi":
+            return None
+        return "columns", "list", slot, op[2]
+    return None
+
+
+def same_argument(obj, fresh):
+    """Is the object the caller passed still what the caller made (compared with a second object made the same way)?"""
+    import numpy
+
+    if type(obj) is not type(fresh):
+        return False
+    if isinstance(obj, numpy.ndarray):
+        return obj.dtype == fresh.dtype and obj.shape == fresh.shape and strict(tolist(obj)) == strict(tolist(fresh))
+    return strict(obj) == strict(fresh)
+
+
 class Batching:
     """One `to_batches` generator.  A generator function runs nothing until it is first advanced, so the first batch is
     pulled when the batching is opened (that is when `to_batches` materialises the frame and evaluates its range)
@@ -546,6 +588,23 @@ def run_impl(case, after):
     snapshots = {}  # index -> copy of rows, for materialised frames
     if isinstance(frames[0][1]._rows, list):
         snapshots[0] = [list(r) for r in frames[0][1]._rows]
+    slots = {}  # the argument objects that several steps are given (the caller's own list / set / array)
+    passed = []  # [step, what, the object passed, a second object made the same way, the step after which it was first seen altered]
+    snapshots["args"] = passed
+
+    def argument(op):
+        what, base, slot, values = arg_of(op)
+        kind = "mask" if what == "mask" else "indexes"
+        if slot is not None and slot in slots:
+            obj = slots[slot]
+        else:
+            obj = arg_form(values, base, kind)
+            if slot is not None:
+                slots[slot] = obj
+        if base != "iter":  # (an iterator is used up by being read: that is what it is for)
+            passed.append([len(frames), what, obj, arg_form(values, base, kind), None])
+        return obj
+
     for op in case["ops"]:
         k = op[0]
         si = op[1]
@@ -564,13 +623,13 @@ def run_impl(case, after):
             elif k == "slice":
                 out = ("frame", df.slice(op[2], op[3]))
             elif k == "filter":
-                out = ("frame", df.filter(arg_form(op[2], op[3] if len(op) > 3 else None, "mask")))
+                out = ("frame", df.filter(argument(op)))
             elif k == "take":
-                out = ("frame", df.take(arg_form(op[2], op[3] if len(op) > 3 else None, "indexes")))
+                out = ("frame", df.take(argument(op)))
             elif k == "query":
                 out = ("frame", df.query(i_pred(op[2])))
             elif k == "select":
-                out = ("frame", df.select(arg_form(op[2], op[3] if len(op) > 3 else None)))
+                out = ("frame", df.select(argument(op) if arg_of(op) else op[2][0]))
             elif k == "distinct":
                 out = ("frame", df.distinct())
             elif k == "add":
@@ -584,7 +643,8 @@ def run_impl(case, after):
                     got = df[op[2][0]] if use_getitem else df.collect(op[2][0], op[3])
                     out = ("val", [table_tolist(got, 1)])
                 else:
-                    got = df[list(op[2])] if use_getitem else df.collect(list(op[2]), op[3])
+                    cols = argument(op)
+                    got = df[cols] if use_getitem else df.collect(cols, op[3])
                     out = ("val", table_tolist(got, 2))
             elif k == "append":
                 # A generator-backed frame that has not been read yet would see (or not see) the new row
@@ -633,6 +693,9 @@ def run_impl(case, after):
         except Exception as e:
             out = ("err", type(e).__name__)
         frames.append(out)
+        for e in passed:
+            if e[4] is None and not same_argument(e[2], e[3]):
+                e[4] = len(frames) - 1
         # every frame that is materialised now and has no snapshot yet gets one (sources are
         # materialised by the operators that read them)
         for j, f in enumerate(frames):
@@ -717,6 +780,7 @@ def valid_case(c):
         kinds = ["frame"]
         typed_of = [kind_of(c) == "typed"]
         has_iter = set()
+        slot_sig = {}
         for op in c["ops"]:
             if not isinstance(op, list) or len(op) < 2 or not isinstance(op[1], int) or not (0 <= op[1] < nres):
                 return False
@@ -736,17 +800,28 @@ def valid_case(c):
                 return False
             if k in ("filter", "take", "select") and not isinstance(op[2], list):
                 return False
-            if k == "filter" and (not all(isinstance(b, bool) for b in op[2]) or (len(op) == 4 and op[3] not in ("list", "tuple", "numpy", "iter"))):
+            form3 = form_slot(op[3])[0] if k in ("filter", "take", "select") and len(op) == 4 else None
+            if k == "filter" and (not all(isinstance(b, bool) for b in op[2]) or (len(op) == 4 and form3 not in ("list", "tuple", "numpy", "iter"))):
                 return False
             if k == "take" and (not all(isinstance(b, int) and not isinstance(b, bool) for b in op[2])
-                                or (len(op) == 4 and op[3] not in ("list", "tuple", "set", "frozenset", "numpy"))):
+                                or (len(op) == 4 and form3 not in ("list", "tuple", "set", "frozenset", "numpy"))):
                 return False
-            if k == "select" and (not all(isinstance(b, str) for b in op[2]) or (len(op) == 4 and (op[3] not in ("list", "tuple", "bare")
-                                                                                                    or (op[3] == "bare" and len(op[2]) != 1)))):
+            if k == "select" and (not all(isinstance(b, str) for b in op[2]) or (len(op) == 4 and (form3 not in ("list", "tuple", "bare")
+                                                                                                    or (form3 == "bare" and len(op[2]) != 1)))):
                 return False
+            if k in ("filter", "take", "select", "collect"):
+                a = arg_of(op)
+                _b, _slot = form_slot(op[3] if k != "collect" and len(op) == 4 else (op[4] if k == "collect" else None))
+                if _slot is not None:
+                    # one object per slot: every step of the slot names the same kind of object with the same contents
+                    if a is None or a[1] == "iter":
+                        return False
+                    sig = (a[1], json.dumps(op[2]), k if a[1] == "numpy" else None)
+                    if slot_sig.setdefault(_slot, sig) != sig:
+                        return False
             if k == "query" and (not isinstance(op[2], list) or op[2][0] not in ("true", "false", "eq", "ne")):
                 return False
-            if k == "collect" and (op[4] not in ("single", "multi") or (not op[2] and op[4] == "single") or not isinstance(op[5], bool)
+            if k == "collect" and (not isinstance(op[4], str) or form_slot(op[4])[0] not in ("single", "multi") or (not op[2] and op[4] == "single") or not isinstance(op[5], bool)
                                    or not (op[3] is None or isinstance(op[3], int))):
                 return False
             if k in ("row", "len") and not isinstance(op[2], int):
@@ -815,6 +890,7 @@ def check_case(ctx_or_none, case, want_state=False):
     frames, snapshots = run_impl(case, after)
     # the mirror's iterator registers were advanced by the program; keep their final positions
     mirror = mirror0
+    passed = snapshots.pop("args", [])
     if snapshots.pop("ambiguous", False) or not in_scope:
         out = (None, [["skipped", "append while an unread generator-backed frame exists" if in_scope else "program uses a spent frame"]], mirror)
         return out + (None,) if want_state else out
@@ -908,6 +984,24 @@ def check_case(ctx_or_none, case, want_state=False):
         now = frames[i][1]._rows
         if not isinstance(now, list) or strict([list(r) for r in now]) != strict(snap):
             clause = clause or "materialised source frame %d was altered" % i
+    # the objects the caller passed (column lists, masks, index lists / sets / arrays) are the caller's: after the
+    # program and every read they hold what the caller put in them (a second use of the same object is a use of the
+    # same selection - that is how the list model reads `any composition of these operations`)
+    for step, what, obj, fresh, by in passed:
+        if by is None and not same_argument(obj, fresh):
+            by = "the reads"
+        if by is not None and frames[step][0] != "err":
+            thing = {"names": "list of column names", "columns": "list of columns", "mask": "mask", "indexes": "index collection"}[what]
+            if by == step:
+                clause = clause or "step %d (%s) altered the %s the caller passed to it: the next use of that object selects something else" % (
+                    step, case["ops"][step - 1][0], thing)
+            else:
+                clause = clause or "the %s the caller passed to step %d (%s) was altered later (by %s): the next use of that object selects something else" % (
+                    thing, step, case["ops"][step - 1][0], by if isinstance(by, str) else "step %d" % by)
+            if isinstance(impl_summary[step], list):
+                now = tolist(obj)
+                impl_summary[step] = impl_summary[step] + ["argument object now", sorted(now, key=repr) if isinstance(now, (set, frozenset)) else list(now)]
+            break
     if clause is None:
         clause = alias_probe(frames, mirror, set(plan))
     if want_state:
@@ -1023,7 +1117,18 @@ def evaluate(ctx, cases):
         for op in c["ops"]:
             ctx.hit("op:" + op[0])
             if len(op) == 4 and op[0] in ("select", "filter", "take"):
-                ctx.hit("argform:%s/%s" % (op[0], op[3]))
+                ctx.hit("argform:%s/%s" % (op[0], form_slot(op[3])[0]))
+        _uses = {}
+        for _i, op in enumerate(c["ops"]):
+            _a = arg_of(op) if op[0] in ("select", "filter", "take", "collect") else None
+            if _a and _a[2] is not None:
+                _uses.setdefault(_a[2], []).append((op[0], mirror[op[1]][1] if mirror[op[1]][0] == "frame" else None))
+        for _u in _uses.values():
+            if len(_u) >= 2:
+                ctx.hit("shared-argument:one object passed to %s; frames of %s" % (
+                    "+".join(sorted({x[0] for x in _u})), "different layouts" if len({json.dumps(x[1]) for x in _u}) > 1 else "one layout"))
+        if not any(len(_u) >= 2 for _u in _uses.values()):
+            ctx.hit("shared-argument:none")
         _ok, _after, _plan, _final = track_case(c)
         ctx.hit("siblings:" + ("a frame with an unread selection is used again" if getattr(_after, "sibling_uses", 0) else "no"))
         ctx.hit("read-order:" + (c.get("order") or "fwd"))
@@ -1174,6 +1279,41 @@ def gen_op(rng, kinds, names_of, nrows_of, allow=None, extra_names=(), prefer=No
     return ["len", s, rng.randrange(3)]
 
 
+def share_argument(rng, op, slots, kinds, names_of, nrows_of):
+    """Programs that hold an argument in a variable and use it twice: now and then the step's sequence argument becomes
+    slot k of the program (`form#k`), and now and then a step is replaced by another use of an earlier slot's object -
+    by the same operator or by one that reads the same kind of list (names: select / collect; positions: take /
+    collect) - preferably on a frame laid out differently from the one the object was first used on."""
+    if slots and rng.random() < 0.3:
+        k = rng.randrange(len(slots))
+        kind0, base, values, names0 = slots[k]
+        kinds_ok = [kind0]
+        if base == "list" and kind0 in ("select", "collect") and all(isinstance(v, str) for v in values):
+            kinds_ok = ["select", "collect", "collect"]
+        if base == "list" and kind0 in ("take", "collect") and all(isinstance(v, int) and not isinstance(v, bool) and abs(v) < 2**31 for v in values):
+            # (positions that fit the collector's 32-bit column index; wider ones are outside the column selections quantified over)
+            kinds_ok = ["take", "collect", "collect"]
+        srcs = [i for i, x in enumerate(kinds) if x == "frame"]
+        other = [i for i in srcs if names_of[i] != names0]
+        s = rng.choice(other if other and rng.random() < 0.7 else srcs)
+        kind = rng.choice(kinds_ok)
+        if kind == "collect":
+            n = nrows_of[s]
+            limit = rng.choice([None, None, None, 1, n, rng.randint(-1, n + 1)])
+            return ["collect", s, list(values), limit, "multi#%d" % k, rng.random() < 0.5 or limit is not None], None
+        return [kind, s, list(values), "%s#%d" % (base, k)], None
+    a = arg_of(op) if op[0] in ("select", "filter", "take", "collect") else None
+    if a is not None and a[1] != "iter" and len(slots) < 4 and rng.random() < 0.4:
+        k = len(slots)
+        op = list(op)
+        if op[0] == "collect":
+            op[4] = "multi#%d" % k
+        else:
+            op[3] = "%s#%d" % (a[1], k)
+        return op, (op[0], a[1], list(a[3]), names_of[op[1]])
+    return op, None
+
+
 def track(kinds, names_of, nrows_of, case, op):
     """Update generator bookkeeping with the mirror's result for `op`."""
     res = run_mirror({**case, "ops": case["ops"] + [op]})
@@ -1265,6 +1405,7 @@ def gen_case(rng, max_rows=6, max_cols=4, max_ops=4, big=False):
     trk = Track(base_is_lazy(case))
     typed_of = [kind_of(case) == "typed"]
     has_iter = set()
+    arg_slots = []  # (operator, object form, values, names of the frame it was first used on)
     if force_distinct:
         op = ["distinct", 0]
         track(kinds, names_of, nrows_of, case, op)
@@ -1276,6 +1417,7 @@ def gen_case(rng, max_rows=6, max_cols=4, max_ops=4, big=False):
             # now and then a second operator on a frame that already has an unread selection / filter (siblings)
             prefer = [i for i in range(len(trk.st)) if trk.unread(i)] if rng.random() < 0.3 else None
             op = gen_op(rng, kinds, names_of, nrows_of, extra_names=extra, prefer=prefer)
+            op, new_slot = share_argument(rng, op, arg_slots, kinds, names_of, nrows_of)
             probe = trk.copy()
             res_kind = run_mirror({**case, "ops": case["ops"] + [op]})[-1][0]
             if probe.step(op, res_kind, typed_of, has_iter):
@@ -1287,6 +1429,8 @@ def gen_case(rng, max_rows=6, max_cols=4, max_ops=4, big=False):
         typed_of.append(op[0] in FRAME_OPS and op[0] != "select" and typed_of[op[1]])
         if op[0] in ("iter", "biter"):
             has_iter.add(op[1])
+        if new_slot is not None:
+            arg_slots.append(new_slot)
         case["ops"].append(op)
     return case
 
@@ -1417,6 +1561,44 @@ def alike_small():
                         count += 1
 
 
+def shared_small():
+    """One argument object given to two operations (`cols = [...]; a.collect(cols); b[cols]`): every pair of operators
+    that read the same kind of sequence, on one frame twice and on two frames that lay the columns out differently
+    (reordered, narrowed, shortened), in both orders; list / tuple / set / array objects."""
+    count = 0
+    layouts = [None, ["select", 0, ["c2", "c1", "c0"]], ["select", 0, ["c1", "c2"]], ["select", 0, ["c2"], "tuple"], ["head", 0, 2],
+               ["take", 0, [2, 0], "set"]]
+    pairs = []
+    for cols in (["c2", "c1"], ["c1"], ["c0", 2], [2, 0], ["c1", "c0", "c2"], [1]):
+        for lim, item in ((None, False), (1, True), (None, True)):
+            pairs.append((["collect", None, cols, lim, "multi#0", item], ["collect", None, cols, None, "multi#0", False]))
+        if all(isinstance(x, str) for x in cols):
+            pairs.append((["select", None, cols, "list#0"], ["collect", None, cols, None, "multi#0", False]))
+            pairs.append((["select", None, cols, "list#0"], ["select", None, cols, "list#0"]))
+            pairs.append((["select", None, cols, "tuple#0"], ["select", None, cols, "tuple#0"]))
+        if all(isinstance(x, int) for x in cols):
+            pairs.append((["take", None, cols, "list#0"], ["collect", None, cols, 2, "multi#0", True]))
+    for idx in ([0, 2], [1], [2, 2, 0, -1], []):
+        for form in ("list", "tuple", "set", "frozenset", "numpy"):
+            pairs.append((["take", None, idx, form + "#0"], ["take", None, idx, form + "#0"]))
+    for mask in ([True, False, True], [False, True], []):
+        for form in ("list", "tuple", "numpy"):
+            pairs.append((["filter", None, mask, form + "#0"], ["filter", None, mask, form + "#0"]))
+    for n in (0, 1, 3):
+        rows = [[i, -i, i % 2] for i in range(n)]
+        for lay in layouts:
+            for x, y in pairs:
+                for (a, b) in ((0, 1), (1, 0), (0, 0), (1, 1)) if lay else ((0, 0),):
+                    for x_, y_ in ((x, y), (y, x)) if x != y else ((x, y),):
+                        prog = ([lay] if lay else []) + [[x_[0], a] + x_[2:], [y_[0], b] + y_[2:]]
+                        for lazy in (False, "gen"):
+                            c = {"names": ["c0", "c1", "c2"], "schema": "list" if count % 3 else "typed", "lazy": lazy, "rows": rows,
+                                 "ops": prog, "read": count % 4}
+                            count += 1
+                            if valid_case(c):
+                                yield c
+
+
 def batchings_small():
     """Two batchings of one frame advanced in every small interleaving; a nested loop; DB-API reads in between."""
     count = 0
@@ -1488,6 +1670,22 @@ def run(ctx):
             continue
         batch.append(c)
     evaluate(ctx, batch)
+    n_sh = 0
+    batch = []
+    for c in shared_small():
+        n_sh += 1
+        if ctx.tier == "quick" and n_sh % 2 and len(c["rows"]) != 3:
+            continue
+        batch.append(c)
+        if len(batch) >= 4000:
+            evaluate(ctx, batch)
+            batch = []
+    evaluate(ctx, batch)
+    ctx.note("shared_argument_scope", "one list / tuple / set / array object passed to two operations (collect / [] / select / take / "
+             "filter, every pair that reads the same kind of sequence, both orders) on one frame and on two frames that lay the columns "
+             "out differently (reordered / narrowed selection, head, take), frames of 0, 1, 3 rows x 3 columns, list- and generator-"
+             "backed (%d cases%s); in the random programs an argument becomes a program variable used again with probability ~0.3; "
+             "after every program each argument object is compared with a second object made the same way" % (n_sh, "; quick: half of the 0- and 1-row cases" if ctx.tier == "quick" else ""))
     batch = list(batchings_small())
     evaluate(ctx, batch)
     ctx.note("lookalike_scope", "distinct (alone, after +, after select and twice) on every frame of 0..3 rows ('k', v), v from one of %d "
